@@ -260,6 +260,20 @@ func judge(c *Case) *core.Verdict {
 				return fail("tree-differs", "module %s: %s", n, strings.Join(diff, " "))
 			}
 		}
+		if c.Prop == "C12" {
+			// a node nobody's text placed there has no module to be attributed to (it can be walked to in this tree, it
+			// reports the namespace and the read-only state of wherever it really hangs)
+			var extra []string
+			for p, g := range got {
+				if _, ok := wantPaths[p]; !ok {
+					extra = append(extra, fmt.Sprintf("%s (%s, ReadOnly %v, namespace %q)", p, g.Kind, g.Ro, g.Ns))
+				}
+			}
+			if len(extra) > 0 {
+				sort.Strings(extra)
+				return fail("node-nobody-placed", "module %s holds nodes that no statement of any module places there: %s", n, strings.Join(extra, "; "))
+			}
+		}
 		for p, f := range wantPaths {
 			g, ok := got[p]
 			if !ok {
